@@ -158,6 +158,14 @@ def step (d : DSt) (toks : List String) : DSt × String :=
     match natOf? t, natOf? m, natOf? b with
     | some t, some m, some b => ({ d with s := St.init ⟨t, m, b⟩, sp := [], pending := none }, both "ok")
     | _, _, _ => bad
+  -- `open … lsm`: same database, compactors stopped, LSM maintenance driven by `lsm <step>` lines
+  | ["open", t, m, b, "lsm"] =>
+    match natOf? t, natOf? m, natOf? b with
+    | some t, some m, some b => ({ d with s := St.init ⟨t, m, b⟩, sp := [], pending := none }, both "ok")
+    | _, _, _ => bad
+  -- LSM maintenance (rotate / flush / l0move / drain / keep): the LSM is the abstract versioned map,
+  -- on which every maintenance step is the identity (C11: contents change only through writes)
+  | ["lsm", _] => (d, both "ok")
   | ["set", k, v, h] =>
     match bytesOf? k, bytesOf? v, natOf? h with
     | some k, some v, some h =>
